@@ -27,6 +27,8 @@ func scanTok(t string, v interface{}) gmars.VerifToken {
 		return gmars.VerifToken{Typ: gmars.VerifTokNumber, Val: fmt.Sprint(jint(v))}
 	case "sym":
 		return gmars.VerifToken{Typ: gmars.VerifTokSymbol, Val: "+"}
+	case "colon":
+		return gmars.VerifToken{Typ: gmars.VerifTokColon, Val: ":"}
 	case "err":
 		return gmars.VerifToken{Typ: gmars.VerifTokError, Val: "lexer error"}
 	case "eof":
@@ -54,6 +56,8 @@ func scanClass(t gmars.VerifToken) string {
 		return "num:" + t.Val
 	case gmars.VerifTokSymbol:
 		return "sym"
+	case gmars.VerifTokColon:
+		return "colon"
 	case gmars.VerifTokError:
 		return "err"
 	case gmars.VerifTokEOF:
